@@ -80,7 +80,8 @@ Content(body, status, media, headers) == ContentA(body, status, media, headers, 
 
 \* a value used where a schema is expected
 \* where a schema is wanted an explicit reference stays a reference; elsewhere it is the value it names
-Und(v) == IF v.vk = "named" THEN v.u ELSE v
+RECURSIVE Und(_)
+Und(v) == IF v.vk = "named" THEN Und(v.u) ELSE v          \* through chains of references (`let @d2 = @d1;`)
 AsSchema(v) ==
   CASE v.vk \in {"schema", "named"} -> v.s
     [] v.vk \in {"uri", "rel"} -> WithAn(Leaf("uri"), v.an)
